@@ -764,7 +764,15 @@ func (w *World) ruleWalkVisitsAll(r *Report, rule string, vw *valueWalk) {
 			if !has {
 				continue
 			}
-			n++
+			// a loop over the elements of a fixed-size local array literal
+			// (`for _, t := range [...]T{key, elem} { walk(t) }`) is its body
+			// written N times: no element of the walked value is enumerated
+			// by it, so the per-element count does not apply — it must still
+			// run to its end and invoke the walk alike on every path
+			trips, literal := literalRangeLoop(lp)
+			if !literal {
+				n++
+			}
 			key := fmt.Sprintf("%s · loop#%d", fnName(g), li+1)
 			// exits
 			okExit := true
@@ -840,6 +848,11 @@ func (w *World) ruleWalkVisitsAll(r *Report, rule string, vw *valueWalk) {
 				if k == "Map" && len(kinds) == 1 {
 					want = 2
 				}
+			}
+			if literal {
+				ok := okExit && len(got) == 1 && got[0] >= 1
+				r.add(rule, key, w.pos(g.Pos()), ok, fmt.Sprintf("kinds %v: a loop over the %d elements of a local array literal (its body %d times in a row): %s; invocations of the walk per iteration %v (want one constant, at least 1)", kinds, trips, trips, factExit, got))
+				continue
 			}
 			ok := okExit && len(got) == 1 && got[0] == want
 			r.add(rule, key, w.pos(g.Pos()), ok, fmt.Sprintf("kinds %v: %s; invocations of the walk per completed iteration %v (want exactly %d)", kinds, factExit, got, want))
